@@ -181,6 +181,10 @@ const (
 // MaxPaddingLength is the greatest length that LPAD and RPAD pad a string to.
 const MaxPaddingLength = 1 << 20
 
+// MaxNumberFormatPrecision is the greatest precision that NUMBER_FORMAT accepts.
+// No float64 has more than 1074 digits after the decimal point.
+const MaxNumberFormatPrecision = 1074
+
 func Coalesce(fn parser.Function, args []value.Primary, _ *option.Flags) (value.Primary, error) {
 	if len(args) < 1 {
 		return nil, NewFunctionArgumentLengthErrorWithCustomArgs(fn, fn.Name, "at least 1 argument")
@@ -592,6 +596,10 @@ func NumberFormat(fn parser.Function, args []value.Primary, _ *option.Flags) (va
 		if !value.IsNull(i) {
 			precision = int(i.(*value.Integer).Raw())
 			value.Discard(i)
+		}
+		if MaxNumberFormatPrecision < precision {
+			value.Discard(p)
+			return nil, NewFunctionInvalidArgumentError(fn, fn.Name, fmt.Sprintf("precision must be less than or equal to %d", MaxNumberFormatPrecision))
 		}
 	}
 	if 2 < len(args) {
